@@ -364,6 +364,36 @@ def thresholds(F, fns):
             else:
                 atom = ("eq", k)
             cnt[(ty,) + atom] += 1
+        # `(lo..=hi).contains(&x)` / `(lo..hi).contains(&x)` with constant bounds: the two cuts a `match` on the same ranges makes
+        for cb, ct in b.calls():
+            cn = strip_generics(callee_def(ct))
+            mm = re.search(r"ops::(RangeInclusive|Range)::contains$", cn)
+            if not mm or not ct["args"]:
+                continue
+            cur = ct["args"][0]
+            k = None
+            for _ in range(5):
+                k = op_const(cur) if isinstance(cur, dict) and "k" in cur else None
+                if k is not None:
+                    break
+                pp = op_place(cur) if isinstance(cur, dict) and ("c" in cur or "m" in cur) else cur
+                dd0 = b.single_def(pp["l"]) if pp is not None else None
+                if not dd0 or dd0[2] != "assign":
+                    break
+                cur = dd0[3]["op"] if dd0[3]["k"] in ("use", "cast") else (dd0[3]["place"] if dd0[3]["k"] == "ref" else None)
+                if cur is None:
+                    break
+            tyk = (k or {}).get("ty", "")
+            mt = re.match(r"^&?std::ops::(RangeInclusive|Range)<([ui])(8|16|32|64|size)>$", tyk)
+            raw = (((k or {}).get("v") or {}).get("ptr") or {}).get("bytes") if isinstance((k or {}).get("v"), dict) else None
+            if mt and raw:
+                sz = {"8": 1, "16": 2, "32": 4, "64": 8, "size": 8}[mt.group(3)]
+                bs = bytes.fromhex(raw)
+                lo = int.from_bytes(bs[0:sz], "little", signed=(mt.group(2) == "i"))
+                hi = int.from_bytes(bs[sz:2 * sz], "little", signed=(mt.group(2) == "i"))
+                ty = mt.group(2) + mt.group(3)
+                cnt[(ty, "cut", lo)] += 1
+                cnt[(ty, "cut", hi + 1 if mt.group(1) == "RangeInclusive" else hi)] += 1
         for sb in sorted(b.normal_blocks()):
             st = b.term(sb)
             if st["k"] != "switch":
